@@ -280,6 +280,8 @@ def check_registration(ctx):
     # fingerprints): a missing record makes the next check-and-act register the same account a second time
     from .c11 import REG as _REG, bookkeeping_rule
     bookkeeping_rule(ctx, L5, (_REG,))
+    from . import c11 as _c11
+    ctx.shared("C11", _c11.check)      # when an account counts as registered, and what a registration records (no second newAccount)
     for key in ("acmed::account::Account::synchronize", "acmed::account::Account::register", "acmed::acme_proto::account::register_account"):
         b = prog.must_body(key)
         ins = b.raw.get("inputs", [])
